@@ -723,6 +723,329 @@ func genCancelInputs(r *vh.Rand, kind string) Case {
 		Extra: hex.EncodeToString(r.Bytes(r.Intn(8)))}
 }
 
+// ---- histories: genuine first, then tampered copies of the SAME keys / payload ---------------
+// A fault that remembers a successful verification (verified (key, message) pairs, verified
+// transactions by payload hash, decoded points, signatures seen) accepts a tampered copy that
+// comes after the genuine one.  order "genuine-first": genuine x reps, then each tamper followed
+// by the genuine one again; order "tamper-first": every tamper on never-seen keys, genuine last.
+
+func cloneCase(cs Case) Case {
+	out := cs
+	out.Inputs = nil
+	for _, in := range cs.Inputs {
+		c := in
+		c.Keys = append([]int{}, in.Keys...)
+		c.Sigs = append([]SigSpec{}, in.Sigs...)
+		out.Inputs = append(out.Inputs, c)
+	}
+	if cs.Agg != nil {
+		a := *cs.Agg
+		a.Signers = append([]int{}, cs.Agg.Signers...)
+		a.Actual = append([]int{}, cs.Agg.Actual...)
+		out.Agg = &a
+	}
+	out.Privs = append([]string{}, cs.Privs...)
+	return out
+}
+
+func history(genuine Case, tampers []Case, order string, reps int) []Case {
+	var steps []Case
+	if order == "tamper-first" {
+		steps = append(steps, tampers...)
+		steps = append(steps, genuine)
+		return steps
+	}
+	for i := 0; i < reps; i++ {
+		steps = append(steps, genuine)
+	}
+	for _, t := range tampers {
+		steps = append(steps, t, genuine)
+	}
+	return steps
+}
+
+func flipHex(r *vh.Rand, h string) string {
+	b, _ := hex.DecodeString(h)
+	if len(b) == 0 {
+		return "01"
+	}
+	b[r.Intn(len(b))] ^= byte(1 << uint(r.Intn(8)))
+	return hex.EncodeToString(b)
+}
+
+// shape: "single" (one input, threshold 1 of >= 2 keys, one signature), "" random
+func genMemoInputs(r *vh.Rand, order string, agg bool, shape string, maxTampers int) Case {
+	p := &pool{r: r}
+	nIn := inputCount(r)
+	if shape == "single" {
+		nIn = 1
+	}
+	var ins []InputSpec
+	var ts []int
+	for i := 0; i < nIn; i++ {
+		n := r.Range(1, 6)
+		t := r.Range(1, n)
+		if shape == "single" {
+			n, t = r.Range(2, 4), 1
+		}
+		in := InputSpec{Type: 0, Script: scriptHex(t)}
+		for j := 0; j < n; j++ {
+			in.Keys = append(in.Keys, p.fresh())
+		}
+		ins = append(ins, in)
+		ts = append(ts, t)
+	}
+	base := Case{Op: "inputs", Kind: "memo-genuine", NMaps: nIn, TxType: -1, Extra: hex.EncodeToString(r.Bytes(r.Range(1, 12)))}
+	var tampers []Case
+	add := func(kind string, f func(c *Case)) {
+		t := cloneCase(base)
+		t.Kind = kind
+		f(&t)
+		tampers = append(tampers, t)
+	}
+	if !agg {
+		for i := range ins {
+			honestSigs(r, &ins[i], ts[i])
+		}
+		base.Inputs, base.Privs = ins, p.privs
+		for i := range ins {
+			for q := range ins[i].Sigs {
+				i, q := i, q
+				add("memo-flip", func(c *Case) {
+					c.Inputs[i].Sigs[q].Tamper = 1 + r.Intn(64)
+					c.Inputs[i].Sigs[q].Xor = 1 << uint(r.Intn(8))
+				})
+				add("memo-other-payload", func(c *Case) { c.Inputs[i].Sigs[q].Other = true })
+				if nIn >= 2 { // the bytes of a signature another input carries
+					o := (i + 1 + r.Intn(nIn-1)) % nIn
+					os := ins[o].Sigs[r.Intn(len(ins[o].Sigs))]
+					add("memo-other-input-sig", func(c *Case) { c.Inputs[i].Sigs[q].Signer = os.Signer })
+				}
+				if len(ins[i].Keys) >= 2 { // the same signature bytes under a different key of the list
+					used := map[int]bool{}
+					for _, s := range ins[i].Sigs {
+						used[s.Idx] = true
+					}
+					free := -1
+					for j := range ins[i].Keys {
+						if !used[j] {
+							free = j
+						}
+					}
+					if free >= 0 {
+						add("memo-same-sig-other-key", func(c *Case) { c.Inputs[i].Sigs[q].Idx = free })
+					} else if len(ins[i].Sigs) >= 2 {
+						q2 := (q + 1) % len(ins[i].Sigs)
+						add("memo-same-sig-other-key", func(c *Case) {
+							sg := c.Inputs[i].Sigs
+							sg[q].Signer, sg[q2].Signer = sg[q2].Signer, sg[q].Signer
+						})
+					}
+				}
+			}
+		}
+	} else {
+		base.NMaps = -1
+		var actual []int
+		off := 0
+		total := 0
+		for i := range ins {
+			total += len(ins[i].Keys)
+		}
+		for i := range ins {
+			for _, j := range subset(r, len(ins[i].Keys), ts[i]) {
+				actual = append(actual, off+j)
+			}
+			off += len(ins[i].Keys)
+		}
+		base.Inputs, base.Privs = ins, p.privs
+		base.Agg = &AggSpec{Signers: actual, Actual: actual, Seed: hex.EncodeToString(r.Bytes(32))}
+		add("memo-agg-flip", func(c *Case) { c.Agg.Tamper = 1 + r.Intn(64); c.Agg.Xor = 1 << uint(r.Intn(8)) })
+		add("memo-agg-other-payload", func(c *Case) { c.Agg.Other = true })
+		in := map[int]bool{}
+		for _, a := range actual {
+			in[a] = true
+		}
+		for x := 0; x < total; x++ { // signer list grown by one key that did not sign, same signature bytes
+			if !in[x] {
+				x := x
+				add("memo-agg-signers-grown", func(c *Case) {
+					c.Agg.Signers = append(c.Agg.Signers, x)
+					sort.Ints(c.Agg.Signers)
+				})
+				break
+			}
+		}
+		// one signer exchanged for a neighbour of the same input (window counts unchanged)
+		off = 0
+		for i := range ins {
+			n := len(ins[i].Keys)
+			done := false
+			for q, a := range actual {
+				if a >= off && a < off+n {
+					for x := off; x < off+n; x++ {
+						if !in[x] {
+							q, x := q, x
+							add("memo-agg-signer-exchanged", func(c *Case) {
+								c.Agg.Signers[q] = x
+								sort.Ints(c.Agg.Signers)
+							})
+							done = true
+							break
+						}
+					}
+				}
+				if done {
+					break
+				}
+			}
+			off += n
+		}
+	}
+	// payload changed, the old signatures kept
+	for k := 0; k < 2; k++ {
+		add("memo-payload", func(c *Case) {
+			old := base.Extra
+			c.SigExtra = &old
+			c.Extra = flipHex(r, base.Extra)
+		})
+	}
+	if maxTampers > 0 && len(tampers) > maxTampers {
+		// keep a random sample, always with a same-signature-other-key and a payload tamper
+		var keep, rest []Case
+		seen := map[string]bool{}
+		for _, t := range tampers {
+			if (t.Kind == "memo-same-sig-other-key" || t.Kind == "memo-payload" || t.Kind == "memo-agg-signers-grown") && !seen[t.Kind] {
+				seen[t.Kind] = true
+				keep = append(keep, t)
+			} else {
+				rest = append(rest, t)
+			}
+		}
+		for len(keep) < maxTampers && len(rest) > 0 {
+			j := r.Intn(len(rest))
+			keep = append(keep, rest[j])
+			rest = append(rest[:j], rest[j+1:]...)
+		}
+		tampers = keep
+	}
+	kind := "memo-validate-" + order
+	if agg {
+		kind = "memo-validate-agg-" + order
+	}
+	return Case{Op: "memo", Kind: kind, TxType: -1, Steps: history(base, tampers, order, r.Range(1, 3))}
+}
+
+// the same through crypto.Verify / BatchVerify / AggregateVerify
+func genMemoCrypto(r *vh.Rand, order string) Case {
+	msg := hex.EncodeToString(r.Bytes(32))
+	n := r.Range(2, 4)
+	var ents []SchEntry
+	for i := 0; i < n; i++ {
+		a, k := newPriv(r), newPriv(r)
+		ents = append(ents, SchEntry{Priv: hex.EncodeToString(a[:]), Nonce: hex.EncodeToString(k[:]), Mode: "honest"})
+	}
+	var steps []Case
+	ver := func(e SchEntry) Case {
+		return Case{Op: "verify", Kind: "verify", Msg: msg, TxType: -1, Entries: []SchEntry{e}}
+	}
+	bat := func(es []SchEntry) Case {
+		return Case{Op: "batch", Kind: "batch", Msg: msg, TxType: -1, Entries: append([]SchEntry{}, es...)}
+	}
+	modes := []string{"s+1", "otherKey", "otherMsg", "otherR", "mixedR", "mixedKey", "s+l"}
+	reps := r.Range(1, 3)
+	// aggregate over the same keys
+	var privs []string
+	for _, e := range ents {
+		privs = append(privs, e.Priv)
+	}
+	actual := subset(r, n, r.Range(1, n-1))
+	seed := hex.EncodeToString(r.Bytes(32))
+	aggv := func(kind string, f func(a *AggSpec)) Case {
+		a := &AggSpec{Signers: append([]int{}, actual...), Actual: append([]int{}, actual...), Seed: seed}
+		f(a)
+		return Case{Op: "aggv", Kind: kind, Msg: msg, TxType: -1, Privs: privs, Agg: a}
+	}
+	genuineAgg := aggv("memo-aggv-genuine", func(*AggSpec) {})
+	in := map[int]bool{}
+	for _, a := range actual {
+		in[a] = true
+	}
+	free := 0
+	for in[free] {
+		free++
+	}
+	aggTampers := []Case{
+		aggv("memo-aggv-flip", func(a *AggSpec) { a.Tamper = 1 + r.Intn(64); a.Xor = 1 << uint(r.Intn(8)) }),
+		aggv("memo-aggv-other-message", func(a *AggSpec) { a.Other = true }),
+		aggv("memo-aggv-signers-grown", func(a *AggSpec) { a.Signers = append(a.Signers, free); sort.Ints(a.Signers) }),
+		aggv("memo-aggv-signer-exchanged", func(a *AggSpec) { a.Signers[0] = free; sort.Ints(a.Signers) }),
+	}
+	if order == "tamper-first" {
+		for i, e := range ents {
+			for _, m := range modes {
+				t := e
+				t.Mode = m
+				steps = append(steps, ver(t))
+				if i == 0 {
+					bad := append([]SchEntry{}, ents...)
+					bad[r.Intn(n)].Mode = m
+					steps = append(steps, bat(bad))
+				}
+			}
+		}
+		steps = append(steps, aggTampers...)
+		for _, e := range ents {
+			steps = append(steps, ver(e))
+		}
+		steps = append(steps, bat(ents), genuineAgg)
+	} else {
+		for k := 0; k < reps; k++ {
+			for _, e := range ents {
+				steps = append(steps, ver(e))
+			}
+			steps = append(steps, bat(ents), genuineAgg)
+		}
+		for i, e := range ents {
+			for _, m := range modes {
+				t := e
+				t.Mode = m
+				steps = append(steps, ver(t), ver(e))
+				if i == 0 {
+					bad := append([]SchEntry{}, ents...)
+					bad[r.Intn(n)].Mode = m
+					steps = append(steps, bat(bad), bat(ents))
+				}
+			}
+		}
+		// a batch that permutes genuine signatures among the genuine keys
+		perm := append([]SchEntry{}, ents...)
+		perm[0].Mode, perm[1].Mode = "otherKey", "otherKey"
+		steps = append(steps, bat(perm), bat(ents))
+		for _, t := range aggTampers {
+			steps = append(steps, t, genuineAgg)
+		}
+	}
+	return Case{Op: "memo", Kind: "memo-crypto-" + order, TxType: -1, Steps: steps}
+}
+
+func genMemo(r *vh.Rand) Case {
+	order := "genuine-first"
+	if r.Chance(1, 4) {
+		order = "tamper-first"
+	}
+	switch r.Intn(8) {
+	case 0, 1:
+		return genMemoCrypto(r, order)
+	case 2, 3:
+		return genMemoInputs(r, order, true, "", 8)
+	case 4:
+		return genMemoInputs(r, order, false, "single", 8)
+	default:
+		return genMemoInputs(r, order, false, "", 10)
+	}
+}
+
 func gen(c *vh.Ctx) Case {
 	r := c.Rng
 	tampers := 1
@@ -731,8 +1054,10 @@ func gen(c *vh.Ctx) Case {
 	}
 	x := r.Intn(100)
 	switch {
-	case x < 39:
+	case x < 36:
 		return genMap(r, tampers)
+	case x < 39:
+		return genMemo(r)
 	case x < 43:
 		return genCancelInputs(r, "")
 	case x < 71:
@@ -880,6 +1205,14 @@ func corpus() []Case {
 	for _, k := range cancelInputKinds {
 		out = append(out, genCancelInputs(r, k))
 	}
+	// histories: genuine first, then tampered copies in the same process; and the control order
+	out = append(out, genMemoInputs(r, "genuine-first", false, "single", 6))
+	out = append(out, genMemoInputs(r, "genuine-first", false, "", 6))
+	out = append(out, genMemoInputs(r, "genuine-first", true, "", 6))
+	out = append(out, genMemoInputs(r, "tamper-first", false, "single", 6))
+	out = append(out, genMemoInputs(r, "tamper-first", true, "", 6))
+	out = append(out, genMemoCrypto(r, "genuine-first"))
+	out = append(out, genMemoCrypto(r, "tamper-first"))
 	return out
 }
 
